@@ -1106,6 +1106,14 @@ class Analysis:
                 return ("closureref", op["closure"])
             if "ref_int" in op:
                 return ("constref", op["ref_ty"]["s"], int(op["ref_int"]))
+            if op["ty"].get("k") == "float" and "bits" in op and "::" in op["s"]:
+                # a named float constant: spelled like the literal of its value (`1f64`, `0.5f64`)
+                import struct
+                sz = int(op.get("size", 8))
+                v = struct.unpack(">d", int(op["bits"]).to_bytes(8, "big"))[0] if sz == 8 else \
+                    struct.unpack(">f", int(op["bits"]).to_bytes(4, "big"))[0]
+                txt = str(int(v)) if v == int(v) and abs(v) < 2 ** 63 else repr(v)
+                return ("constx", op["ty"]["s"], txt + op["ty"]["s"])
             return ("constx", op["ty"]["s"], op["s"])
         if k in ("copy", "move"):
             return self.place_term(op["place"], cur)
